@@ -138,6 +138,41 @@ def is_const(av, typ=None):
 TOKEN_BASES = ('schedula.Token',)
 
 
+class _Return(Exception):
+    def __init__(self, value):
+        self.value = value
+
+
+class _InlineFail(Exception):
+    pass
+
+
+_INLINE_STMTS = (ast.Assign, ast.AugAssign, ast.AnnAssign, ast.Expr, ast.For,
+                 ast.If, ast.Return, ast.Pass)
+
+
+def _inlinable(fi):
+    """A private module-level helper written in the foldable subset (plain
+    assignments, loops, constant-decidable ifs, returns): the kind of function
+    that builds a table at import time."""
+    n = fi.node
+    if not isinstance(n, ast.FunctionDef) or fi.cls is not None or \
+            fi.parent is not None or n.decorator_list or \
+            not fi.name.startswith('_') or fi.name.startswith('__') or \
+            n.args.kwarg is not None:
+        return False
+    for st in ast.walk(n):
+        if isinstance(st, ast.stmt) and st is not n and not isinstance(
+                st, _INLINE_STMTS):
+            return False
+        if isinstance(st, (ast.Yield, ast.YieldFrom, ast.Await, ast.Global,
+                           ast.Nonlocal)):
+            return False
+        if isinstance(st, ast.For) and st.orelse:
+            return False
+    return True
+
+
 class Evaluator:
     """Evaluates module-level code of the package lazily, one module at a time."""
 
@@ -243,10 +278,19 @@ class Evaluator:
             res = self.binop(cur, st.op, val)
             self.assign(module, st.target, res, env, st)
             return
+        if isinstance(st, ast.Return):
+            raise _Return(self.eval(module, st.value, env)
+                          if st.value is not None else Const(None))
         if isinstance(st, ast.Expr):
             v = st.value
             if isinstance(v, ast.Call) and isinstance(v.func, ast.Attribute):
                 self.method_stmt(module, v, env)
+            elif isinstance(v, ast.Call) and isinstance(v.func, ast.Name):
+                # `_register(table)`: a table-building helper called for its
+                # effect on a module-level mapping
+                fn = self._eval(module, v.func, env)
+                if isinstance(fn, FuncV) and _inlinable(fn.fi):
+                    self.call(module, v, env)
             return
         if isinstance(st, ast.For):
             it = self.eval(module, st.iter, env)
@@ -272,6 +316,8 @@ class Evaluator:
             t = self.eval(module, st.test, env)
             if is_const(t):
                 self.exec_block(module, st.body if t.v else st.orelse, env)
+            elif getattr(self, '_inlining', 0):
+                raise _InlineFail()
             else:
                 # undecidable: bindings become Unknown
                 for n in ast.walk(st):
@@ -614,6 +660,10 @@ class Evaluator:
             r = self.bound_call(fn, args, kw)
             if r is not None:
                 return r
+        if isinstance(fn, FuncV) and _inlinable(fn.fi) and '**' not in kw:
+            r = self.inline(fn.fi, args, kw)
+            if r is not None:
+                return r
         if isinstance(fn, ClassV):
             if self.is_token_class(fn.ci) and len(args) == 1 and is_const(
                     args[0], str):
@@ -621,6 +671,49 @@ class Evaluator:
                               site=(module, node.lineno) if node is not None
                               else None)
         return CallV(fn, args, kw, node=node, module=module)
+
+    def inline(self, fi, args, kw):
+        """Evaluate a call of a table-building helper by executing its body
+        on the abstract values; None when it leaves the foldable subset."""
+        if getattr(self, '_inlining', 0) >= 4:
+            return None
+        a = fi.node.args
+        names = [x.arg for x in a.posonlyargs + a.args]
+        module = fi.module
+        menv = self.envs[module.name] if module.name in self.in_progress \
+            and module.name in self.envs else self.module_env(module)
+        env = ChainEnv(menv)
+        if len(args) > len(names) and a.vararg is None:
+            return None
+        for n_, v in zip(names, args):
+            env[n_] = v
+        if a.vararg is not None:
+            env[a.vararg.arg] = SeqV('tuple', list(args[len(names):]))
+        defaults = dict(zip(names[len(names) - len(a.defaults):], a.defaults))
+        for k, d in zip(a.kwonlyargs, a.kw_defaults):
+            if d is not None:
+                defaults[k.arg] = d
+        allowed = set(names) | {k.arg for k in a.kwonlyargs}
+        for k, v in kw.items():
+            if k not in allowed or (k in names and names.index(k) < len(args)):
+                return None
+            env[k] = v
+        for n_ in allowed:
+            if not dict.__contains__(env, n_):
+                if n_ not in defaults:
+                    return None
+                env[n_] = self.eval(module, defaults[n_], menv)
+        self._inlining = getattr(self, '_inlining', 0) + 1
+        try:
+            self.exec_block(module, fi.node.body, env)
+            res = Const(None)
+        except _Return as r:
+            res = r.value
+        except _InlineFail:
+            return None
+        finally:
+            self._inlining -= 1
+        return None if isinstance(res, Unknown) else res
 
     def ext_call(self, name, args, kw, node):
         if name in ('collections.OrderedDict', 'builtins.dict'):
